@@ -42,8 +42,7 @@ ASSUMPTIONS = [
     'take/first/isEmpty are modelled separately (no retry for a generator task function); toLocalIterator is not covered',
     'pooled executor in the model correspondence = concurrent.futures.ThreadPoolExecutor; worker processes '
     '(multiprocessing.Pool + cloudpickle) are exercised by the oracle only (extra_checks), with at most one exhausting '
-    'partition per job and no reduce over an empty partition (RDD.reduce fails there without any fault: its sentinel '
-    'does not survive pickling -- a backend defect, not a retry defect)',
+    'partition per job (with several, Pool.map reports whichever fails first in time)',
     'on the thread pool, nested operations are only generated in partitions up to the first exhausted one: tasks of '
     'later partitions may still be running after the failed job has released its lock (executor race, not modelled)',
     'free-running thread pool: attempt logs of partitions after the first exhausted one are only checked to be '
@@ -590,10 +589,6 @@ def extra_checks(rng, tier, workdir):
                 seen = False
                 fixed = []
                 for data, plan, nest in parts:
-                    if action in NEEDS_DATA and not data:
-                        # RDD.reduce on worker processes fails on an empty partition even without any fault (its
-                        # `_empty` sentinel is compared by identity and does not survive pickling) -- not C04's subject
-                        data = gen_data(rng, 2)
                     if n_failing(maxr, (data, plan, nest)) >= maxr:
                         if seen:
                             plan, nest = [], [x for x in nest if x[1]]
